@@ -133,5 +133,40 @@ def nice_model(run, name, hyps, neg_goal, variables, timeout=20):
     return None
 
 
+def ground_model(hyps, neg_goal, variables, seed=0, tries=16, timeout=10):
+    """Counterexample search by instantiation: every variable is pinned to a small half-integer (seeded choices) and the solver
+    decides the ground instance  hyps /\\ neg_goal  (definitions such as s >= 0, s*s = X are solved exactly).  sat = a concrete
+    counterexample (returned as a model); nothing found = None (never counted as a proof)."""
+    rng = random.Random(seed + 4711)
+    for t in range(tries):
+        bound = (2, 3, 5, 8)[t % 4]
+        s = z3.Solver()
+        s.set('timeout', int(timeout * 1000))
+        for h in hyps:
+            s.add(h)
+        s.add(neg_goal)
+        for v in variables:
+            s.add(v == z3.RealVal(rng.randrange(-2 * bound, 2 * bound + 1)) / 2)
+        if s.check() == z3.sat:
+            return s.model()
+    return None
+
+
 def fnum(t):
     return float(t)
+
+
+_cycle_cache = {}
+
+
+def real_cycle(funcs, n):
+    """SimpleCycle::new(n) executed from the MIR (so that added / reordered fields of the struct are tracked, not guessed)"""
+    key = (id(funcs), n)
+    if key not in _cycle_cache:
+        name = engine.find_fn(funcs, r'simple_cycle::<impl at [^>]*>::new$')
+        interp = engine.new_interp(funcs)
+        outs = interp.exec_fn(State(), name, [n], {})
+        if len(outs) != 1:
+            raise Inconclusive('SimpleCycle::new: %d paths' % len(outs))
+        _cycle_cache[key] = outs[0][1]
+    return _cycle_cache[key]
